@@ -272,6 +272,14 @@ class Gen:
             self.locals.append(ln)
         rec = r.random() < 0.25 and nin >= 1
         nout = r.choice([0, 1, 1])
+        redecl = None
+        if self.locals and r.random() < 0.35:
+            # a local is updated by declaring it again: later reads must see the newest declaration
+            ln = r.choice(self.locals)
+            redecl = ln
+            body += '%s %s local %s ' % (ln, r.choice(['1 +', '2 *', 'dup +', 'drop 9']), ln)
+            if r.random() < 0.5:
+                body += '%s %s local %s ' % (self.val('int', d + 1), '', r.choice(self.locals))
         if rec:
             # bounded recursion on the first argument
             l0 = self.locals[-1]
@@ -281,8 +289,12 @@ class Gen:
             b, _ = self.block_with_effect(d + 1, nout)
             body += b
         else:
-            b, _ = self.block_with_effect(d + 1, nout)
-            body += b
+            if redecl and nout >= 1:
+                b, _ = self.block_with_effect(d + 1, nout - 1)
+                body += b + ' ' + redecl
+            else:
+                b, _ = self.block_with_effect(d + 1, nout)
+                body += b
             self.names.append((name, nin, nout))
         self.in_def = False
         self.locals, self.loop_depth, self.in_begin = saved_locals, saved_loop, saved_begin
